@@ -3,8 +3,9 @@
 P="$1"; shift
 cd /repo || exit 2
 git diff --quiet || { echo "/repo not clean"; exit 2; }
-git apply "$P" || { echo "patch does not apply"; exit 2; }
+git apply "$P" 2>/dev/null || git apply --3way "$P" 2>/dev/null || { echo "patch does not apply"; git reset -q; git checkout -q HEAD -- . ; exit 2; }
+git reset -q
 for c in "$@"; do
   ( cd /verif && ./check "$c" > /tmp/mut_$c.out 2>&1; echo "$c rc=$? $(grep -c '^VIOLATION' /tmp/mut_$c.out) violations, $(grep -c '^SPEC-DRIFT' /tmp/mut_$c.out)+ drift; $(grep -m1 '^VIOLATION' /tmp/mut_$c.out | cut -c1-160)" )
 done
-git -C /repo checkout -- . 
+git -C /repo reset -q; git -C /repo checkout -q HEAD -- .
